@@ -31,7 +31,8 @@ class Ctx:
     def __init__(self, pid, tier, seed):
         self.pid, self.tier, self.seed = pid, tier, seed
         self.quick = tier == "quick"
-        self.work = os.path.join(VERIF, ".work", pid)
+        # runs against another tree (seeded changes) get a scratch directory of their own, so that they can run side by side
+        self.work = os.path.join(VERIF, ".work", pid if not os.environ.get("VERIF_REPO") else "%s_alt%d" % (pid, os.getpid()))
         self.rng = random.Random((seed * 1000003) ^ hash_str(pid))
         self.notes = []
 
@@ -194,8 +195,11 @@ def parallel(modname, fname, jobs, nproc=None):
 
 # ----------------------------------------------------------------------------- main
 def write_evidence(pid, ev):
-    os.makedirs(os.path.join(VERIF, "evidence"), exist_ok=True)
-    p = os.path.join(VERIF, "evidence", pid + ".json")
+    edir = os.path.join(VERIF, "evidence")
+    if os.environ.get("VERIF_REPO"):          # a run against another tree (seeded change) never touches the real evidence
+        edir = os.path.join(VERIF, ".work", "evidence_alt")
+    os.makedirs(edir, exist_ok=True)
+    p = os.path.join(edir, pid + ".json")
     with open(p + ".tmp", "w") as f:
         json.dump(enc(ev), f, indent=1, sort_keys=True)
     os.replace(p + ".tmp", p)
@@ -254,7 +258,8 @@ def main(pid, tier, seed):
         evidence["violations"] = len(new_viol)
         if new_viol:
             os.makedirs(os.path.join(VERIF, ".work", "replays"), exist_ok=True)
-            rp = os.path.join(VERIF, ".work", "replays", "replay_%s_%s_%d.json" % (pid, tier, seed))
+            rp = os.path.join(VERIF, ".work", "replays", "replay_%s_%s_%d%s.json" % (
+                pid, tier, seed, "_alt%d" % os.getpid() if os.environ.get("VERIF_REPO") else ""))
             byinv = collections.Counter(v["invariant"] for v in new_viol)
             with open(rp, "w") as f:
                 json.dump(enc({"property": pid, "tier": tier, "seed": seed, "by_clause": dict(byinv),
